@@ -150,6 +150,59 @@ def jsonable(x, depth=0):
     return str(x)
 
 
+WITNESS_PROPS = {"C08", "C12", "C20", "C10"}
+
+
+def thorough_extras(prop, repo):
+    """thorough tier only: (a) both feature configurations were analysed by the caller; (b) the checker is tested both
+    ways on scratch copies of the repository (mutants must be flagged, benign rewrites must stay silent);
+    (c) compile-fail witnesses for the type-level obligations.  None of this runs http-serve code."""
+    import subprocess
+    out = {}
+    st = os.path.join(HERE, "bin", "selftest")
+    tmpj = tempfile.mktemp(prefix="hsv-selftest-", suffix=".json")
+    env = dict(os.environ, HSV_REPO=repo)
+    r = subprocess.run([sys.executable, st, "--only", prop, "--kind", "all", "--jobs", "8", "--json", tmpj],
+                       cwd=HERE, capture_output=True, text=True, env=env)
+    try:
+        with open(tmpj) as f:
+            res = json.load(f)
+        os.remove(tmpj)
+        flagged = [x for x in res["results"] if x["status"] in ("FLAGGED", "FLAGGED-OTHER-RULE")]
+        missed = [x["label"] for x in res["results"] if x["status"] == "MISSED"]
+        silent = [x for x in res["results"] if x["status"] == "SILENT"]
+        false_alarm = [x["label"] for x in res["results"] if x["status"] == "FALSE-ALARM"]
+        other = [x["label"] + ":" + x["status"] for x in res["results"] if x["status"] in ("PATCH-FAILED", "BUILD-FAILED")]
+        out["selftest"] = {"mutants_flagged": len(flagged), "mutants_total": len(flagged) + len(missed), "missed": missed,
+                           "benign_silent": len(silent), "benign_total": len(silent) + len(false_alarm), "false_alarms": false_alarm,
+                           "not_applicable_to_this_tree": other,
+                           "flagged_examples": [{"patch": x["patch"], "by": [v for vv in x["flagged"].values() for v in vv["violations"]][:1]} for x in flagged[:5]]}
+        for m in missed:
+            print("SELFTEST-MISSED %s" % m)
+        for m in false_alarm:
+            print("SELFTEST-FALSE-ALARM %s" % m)
+    except Exception as e:
+        out["selftest"] = {"error": str(e), "stdout": r.stdout[-500:]}
+    if prop in WITNESS_PROPS:
+        wdir = os.path.join(HERE, "witness")
+        tdir = tempfile.mkdtemp(prefix="hsv-witness-target-")
+        try:
+            import shutil
+            shutil.copy(os.path.join(repo, "Cargo.lock"), os.path.join(wdir, "Cargo.lock"))
+            env2 = dict(os.environ, CARGO_NET_OFFLINE="true", CARGO_TARGET_DIR=tdir)
+            r = subprocess.run(["cargo", "+nightly", "test", "--doc", "--offline"], cwd=wdir, capture_output=True, text=True, env=env2)
+            lines = [l for l in r.stdout.splitlines() if l.startswith("test ")]
+            okk = r.returncode == 0
+            out["witnesses"] = {"ok": okk, "tests": lines}
+            if not okk:
+                print("WITNESS-FAILED %s" % [l for l in lines if not l.endswith("ok")])
+                out["witnesses"]["stderr"] = r.stderr[-800:]
+        finally:
+            import shutil
+            shutil.rmtree(tdir, ignore_errors=True)
+    return out
+
+
 def main(argv=None):
     ap = argparse.ArgumentParser()
     ap.add_argument("prop")
@@ -216,6 +269,12 @@ def main(argv=None):
         fatal = "checker error: %s: %s" % (type(e).__name__, e)
         traceback.print_exc()
 
+    extras = {}
+    if tier == "thorough" and not fatal:
+        try:
+            extras = thorough_extras(prop, a.repo)
+        except Exception as e:  # the extras never decide the property; report and go on
+            extras = {"error": "%s: %s" % (type(e).__name__, e)}
     known = load_known()
     kf = {(k["property"], k["key"]): k for k in known.get("findings", [])}
     nviol = 0
@@ -318,6 +377,7 @@ def main(argv=None):
             "floors": floors,
             "info": [l for ctx in ctxs for l in ctx.info_lines][:50],
             "exhaustive": False,
+            "thorough_extras": extras,
         },
         "assumptions": assumptions or ["rustc nightly MIR at -Zmir-opt-level=0 is the semantics of the source"],
         "wall_s": round(time.time() - t0, 2),
